@@ -10,7 +10,7 @@ ClsOne == {"EllipsePix"}
 ClsCA == {"CircleAnnulusPix"}
 ClsEA == {"EllipseAnnulusPix"}
 ClsPoint == {"PointPix"}
-ClsQuick == ClsAll \ {"EllipseAnnulusPix", "EllipseAnnulusSky", "RectangleAnnulusSky", "RectangleAnnulusPix", "RectangleSky", "LineSky", "PointSky"}
+ClsQuick == ClsAll \ {"EllipseAnnulusPix", "EllipseAnnulusSky", "RectangleAnnulusSky", "RectangleSky", "LineSky", "PointSky", "TextSky", "PolygonSky", "LinePix"}
 ClsQuickCopy == ClsAll \ {"EllipseAnnulusPix", "EllipseAnnulusSky", "RectangleAnnulusSky"}
 ClsFew == {"CirclePix", "EllipseSky", "CircleAnnulusPix", "PolygonPix", "CompoundPix"}
 ActsParams == {"construct", "construct_bad", "assign", "delete"}
